@@ -55,6 +55,8 @@ fn main() {
             let workers: u32 = arg_value(&args, "--workers").unwrap().parse().unwrap();
             let dir = PathBuf::from(arg_value(&args, "--dir").unwrap());
             fw::install_panic_hook();
+            let case_limit: u64 = arg_value(&args, "--case-limit").and_then(|s| s.parse().ok()).unwrap_or(120);
+            fw::start_case_watchdog(dir.clone(), worker, case_limit);
             let ctx = fw::make_child_ctx(&id, tier, seed, worker, workers, &dir, false);
             // code under test needs a named thread with the default 2 MiB stack (what the server's workers get)
             let h = std::thread::Builder::new().name("0".to_string()).stack_size(2 * 1024 * 1024).spawn(move || {
